@@ -173,7 +173,8 @@ impl From<&PcapPacket> for Vec<u8> {
     fn from(pkt: &PcapPacket) -> Self {
         let header = pkt.header.borrow().clone();
         let mut bytes: Vec<u8> = (&header).into();
-        if let Some(inner) = pkt.inner.borrow().clone() {
+        // an error object or null cached by a failed parse is not a layer
+        if let Some(inner) = pkt.inner.borrow().clone().filter(|o| o.is_packet_layer()) {
             let data: Vec<u8> = inner.as_ref().into();
             bytes.extend_from_slice(&data);
         } else {
